@@ -106,6 +106,9 @@ def check(ck: Checker) -> None:
 
     _r4.index_memo_reset(ck, "C12.indexwrite")
     _r4.status_exists_provenance(ck, "C12.status")
+    from . import round7 as _r7
+
+    _r7.exists_missing_only_by_check(ck, "C12.status")
 
 
 
